@@ -78,6 +78,7 @@ def cases(tier, seed):
     out.append({"name": "metrics.precancelled/cos", "kind": "precancelled"})
     for comb in ("f_map", "f_flat_map", "f_zip", "f_sequence", "f_and", "f_or", "f_apply", "f_proxy", "f_nocancel", "f_timeout", "f_traverse"):
         out.append({"name": "metrics.combinators/%s" % comb, "kind": "combinators", "comb": comb})
+    out.append({"name": "metrics.ctor-raises", "kind": "ctorraises"})
     out.append({"name": "metrics.engaged", "kind": "engaged"})
     return out
 
@@ -661,6 +662,44 @@ def run_sdraises(case, res):
         end(ctx)
 
 
+def run_ctorraises(case, res):
+    """A constructor call that is refused creates no executor: nothing is counted as in use (or as created)."""
+    ME = instr.ME
+    P = prom()
+    begin("vt")
+    ctx = Ctx()
+    try:
+        def snap():
+            return {k: v[0] for k, v in P.dump(None).items() if k[0] in ("exec_inprogress", "exec_total")}
+        before = snap()
+        attempts = [("thread_pool(max_workers=0)", lambda: ME.Executors.thread_pool(max_workers=0, name="ctor")),
+                    ("thread_pool(max_workers=-1)", lambda: ME.Executors.thread_pool(max_workers=-1, name="ctor")),
+                    ("thread_pool(initializer=3)", lambda: ME.Executors.thread_pool(max_workers=1, initializer=3, name="ctor")),
+                    ("with_retry(max_attempts='x') ", lambda: None)]
+        refused = 0
+        for label, mk in attempts:
+            try:
+                ex = mk()
+                if ex is not None:
+                    ex.shutdown(True)
+            except (ValueError, TypeError):
+                refused += 1
+        after = snap()
+        res.execs += 1
+        for k in sorted(set(before) | set(after)):
+            if dict(k[1:]).get("executor") != "ctor":
+                continue
+            b, a = before.get(k, 0), after.get(k, 0)
+            if k[0] == "exec_inprogress" and a != b:
+                res.violation("gauge-counts-refused-constructor/%s" % dict(k[1:]).get("type"),
+                              "%d constructor calls were refused, yet %s went from %s to %s" % (refused, k, b, a))
+        if not refused:
+            res.inconclusive.append("no constructor call was refused")
+        res.key("ctorraises", refused)
+    finally:
+        end(ctx)
+
+
 def run_engaged(case, res):
     """The metrics code must really be the prometheus variant (engagement gate)."""
     begin("rt")
@@ -697,6 +736,8 @@ def run_case(case, res):
         Sweep(WorkerScenario(case), res, "vt", case["name"]).run(case["cap"], random.Random("c20w/%s" % case["name"]), per_site=2)
     elif k == "sdraises":
         run_sdraises(case, res)
+    elif k == "ctorraises":
+        run_ctorraises(case, res)
     elif k == "wsweep":
         rng = random.Random("c20w/%s" % case["seed"])
         Sweep(TWScenario(case), res, "vt", case["name"]).run(case["cap"], rng, per_site=3)
